@@ -254,4 +254,14 @@ def replay(prop, path):
 
 
 if __name__ == "__main__":
-    sys.exit(main())
+    try:
+        rc = main()
+    except SystemExit:
+        raise
+    except BaseException:  # noqa: BLE001  an uncaught exception of the checker is a checker error (exit 3), never a violation (exit 1)
+        import traceback
+
+        traceback.print_exc()
+        print("CHECKER-ERROR: uncaught exception in the driver")
+        rc = 3
+    sys.exit(rc)
